@@ -4,7 +4,9 @@ Model of citation resolution: `BibliographyData._expand_wildcard_citations`,
 `Interpreter.command_read` / `remove_missing_citations` (pybtex/bibtex/interpreter.py) and
 `BaseStyle.format_bibliography` (pybtex/style/formatting/__init__.py, with the repair
 proposed_fixes/C05-1: a cited key that is not in the database is reported and left out by a
-`remove_missing_citations` step, as in the BibTeX engine, instead of raising `KeyError`).
+`remove_missing_citations` step, as in the BibTeX engine, instead of raising `KeyError`; and
+proposed_fixes/C05-2: the dangling cross-reference of an entry that was appended by the
+threshold is reported like that of a cited entry).
 
 The generators of the Python code are run to completion (`list(...)`), so each becomes a
 function returning the yielded list; `report_error` calls are collected next to it in order.
@@ -67,8 +69,26 @@ def crossrefAux (db : BibData) (minCrossrefs : Int) : XState → List Str → Li
             (canon :: rr.1, rr.2)
           else crossrefAux db minCrossrefs ⟨count1, st.cset⟩ r
 
+/-- `_get_crossreferenced_citations`, the second loop (repair proposed_fixes/C05-2): the entries
+that have just been appended go into the bibliography too, so their own dangling
+cross-references are reported as well:
+`try: crossref = self.entries[citation].fields['crossref'] except KeyError: continue`, then
+`if crossref not in self.entries: report`. -/
+def danglingExtras (db : BibData) : List Str → List Report
+  | [] => []
+  | c :: r =>
+    match db.entries.getItem c with
+    | none => danglingExtras db r                                 -- KeyError → continue
+    | some e =>
+      match e.fields.getItem xrefName with
+      | none => danglingExtras db r                               -- KeyError → continue
+      | some x =>
+        if db.entries.contains x then danglingExtras db r
+        else .badCrossref c x :: danglingExtras db r
+
 def crossreferenced (db : BibData) (citations : List Str) (minCrossrefs : Int) : List Str × List Report :=
-  crossrefAux db minCrossrefs ⟨CIDict.empty, CISet.ofList citations⟩ citations
+  let r := crossrefAux db minCrossrefs ⟨CIDict.empty, CISet.ofList citations⟩ citations
+  (r.1, r.2 ++ danglingExtras db r.1)
 
 /-- `add_extra_citations(citations, min_crossrefs)`. -/
 def addExtraCitations (db : BibData) (citations : List Str) (minCrossrefs : Int) : List Str × List Report :=
